@@ -79,6 +79,9 @@ func TestConfigSpace(t *testing.T) {
 				if m.kind == "dangling" && strings.HasSuffix(m.label, "only") {
 					group = "dangling-half" // a client that exists, but not for the network the reference covers
 				}
+				if m.kind == "duplicate" && (strings.HasPrefix(m.label, "twin-") || strings.HasSuffix(m.label, "-named-direct")) {
+					group = "duplicate-single-network" // two holders of one name on disjoint or equal single networks
+				}
 				if _, ok := byKind[group]; !ok {
 					kindsAvail = append(kindsAvail, group)
 				}
